@@ -42,6 +42,19 @@ CLAIMED["C04"] = {
     "technique": _T + ": guard extraction + interval algebra vs documented table, dominance of the check over entry points, who-may-construct on checked types",
 }
 
+CLAIMED["C19"] = {
+    "text": "Decided on the workspace compiled with every crate's `serde` feature (which the test suite never builds): the "
+            "configuration type-checks; every Serialize type has Deserialize and vice versa; in the expanded derive output "
+            "every field and variant of every serialisable type is written under its own name directly from the field and "
+            "restored from the input (no skip/default/rename/with/skip_serializing_if outside a reasoned allow-list); field "
+            "types are closed under 'round-trips exactly'; and a generated harness crate, only type-checked, shows that every "
+            "nameable serialisable type instantiated at f64 and f32 satisfies Serialize + DeserializeOwned. Holds for every "
+            "value of every such type. Not decided: bit-level behaviour of third-party serialisers.",
+    "design_ref": "DESIGN.md section 4, C19",
+    "note": "Trusted: serde_derive's expansion (the pinned version's output is what is analysed), serde impls of std/ndarray/sprs/rand_xoshiro/serde_regex, the format crate.",
+    "technique": _T + " on the serde configuration: structure preservation read off the expanded derive impls, type closure, compile-only witness crate",
+}
+
 CLAIMED["C20"] = {
     "text": "Decides, for all hash seeds, thread counts and schedules at once: every iteration over a HashMap/HashSet in lib code "
             "(and every call of a workspace function that hands hash order to its caller) reaches only order-insensitive "
